@@ -325,6 +325,10 @@ def execute(rec):
     if info['exception'] is not None:
         return core.result(F, sig='exception', nontrivial=False, counters=cnt)
     times = [float(t) for t in m.pData.time]
+    if info['capped'] and len(times) > 1:
+        # the harness' step cap is raised from the coupling slot, which the model calls AFTER recording the step and BEFORE polling its
+        # stopping conditions: the last recorded step was never shown to the conditions and is not part of the reference history
+        times = times[:-1]
     sers = [series_of(m, c) for c in rec['conds']]
     last = info['calls'][-1]
     completed_all = (not info['capped']) and len(info['calls']) == len([o for o in rec['ops'] if o['op'] == 'solve']) and all(times[c['n1']] == c['t_end_req'] for c in info['calls'])
